@@ -179,17 +179,17 @@ impl Interpreter {
                 let first = state.stack.last().cloned().ok_or(InterpreterError::NumberOutOfRange)?;
                 let second = state.stack.get(state.stack.len() - 2).cloned().ok_or(InterpreterError::NumberOutOfRange)?;
 
-                state.stack.push_bytes(first);
                 state.stack.push_bytes(second);
+                state.stack.push_bytes(first);
             }
             OpCodes::OP_3DUP => {
                 let first = state.stack.last().cloned().ok_or(InterpreterError::NumberOutOfRange)?;
                 let second = state.stack.get(state.stack.len() - 2).cloned().ok_or(InterpreterError::NumberOutOfRange)?;
                 let third = state.stack.get(state.stack.len() - 3).cloned().ok_or(InterpreterError::NumberOutOfRange)?;
 
-                state.stack.push_bytes(first);
-                state.stack.push_bytes(second);
                 state.stack.push_bytes(third);
+                state.stack.push_bytes(second);
+                state.stack.push_bytes(first);
             }
             OpCodes::OP_2OVER => {
                 let len = state.stack.len();
